@@ -120,6 +120,7 @@ pub fn generate(prop: &str, tier: &str, seed: u64, w: &mut dyn Write) {
         "C12" => crate::gen_enc::gen_c12(&mut o, tier, seed),
         "C13" => crate::gen_enc::gen_c13(&mut o, tier, seed),
         "C14" => crate::gen_enc::gen_c14(&mut o, tier, seed),
+        "C18" => crate::gen_enc::gen_c18(&mut o, tier, seed),
         "C19" => crate::gen_sigma::gen_c19(&mut o, tier, seed),
         "C20" => { crate::gen_sigma::gen_c20(&mut o, tier, seed); crate::gen_range::gen_range_new(&mut o, tier, seed, false) }
         _ => {}
